@@ -18,7 +18,7 @@ TRUSTED = ["Coq 8.16.1 kernel + vm_compute", "hand-written models coq/Model/Minv
            "binary64 runs use a harness-supplied twiddle table exp(-2 pi i j/n) and a tolerance; numpy.fft is modelled as the DFT sum",
            "Python harness; numpy.linalg.solve in the search oracle"]
 TRUSTED = TRUSTED + [TRUSTED_LINE]
-LEVEL_TEXT = LEVEL_TEXT + (" Additionally the hand-written model is tied to the source text: a deep-embedded loop-IR program is regenerated from the Python source of the psi loop of minvar on every run (fail-closed ast translator) and evaluated by the Coq interpreter at the exact instance against the model with zero tolerance (same outcome, every entry equal).")
+LEVEL_TEXT = LEVEL_TEXT + (" Additionally the hand-written model is tied to the source text: a deep-embedded loop-IR program is regenerated from the Python source of the psi loop of minvar on every run (fail-closed ast translator) and evaluated by the Coq interpreter at the exact instance against the model with zero tolerance (same outcome, every entry equal).  The WHOLE function minvar (argument checks of errors.py, the embedded arburg, the psi loop, numpy.fft.fft = the DFT specification over a hidden twiddle parameter, sampling / real(.)) is regenerated too and its run compared with Model.Minvar.minvar exactly at QcC (tw1/tw2/tw4: PSD, A, k, the exception classes) and at binary64 against the model and the implementation.")
 UNPROVED = ["every clause of the statement is proved for NFFT >= 2m-1 in exact arithmetic (R^-1 e is quantified as 'every y with R y = e')",
             "aliased grids NFFT < 2m-1 (outside the property; the pinned test lives there): modelled exactly, correspondence only",
             "binary64 rounding of the implementation: tolerance runs only",
@@ -203,7 +203,9 @@ def run(ctx):
     # the estimate an object holds does not depend on the history that gave it its data and settings (every route of _estimators.via)
     from props import _estimators as E_
     E_.class_route_stream(ctx, ['pminvar'], 'routes')
-    loopir_tie(ctx, ['minvar_psi', 'arburg'])      # IR programs regenerated from the source vs the model: exact, zero tolerance
+    # IR programs regenerated from the source vs the model: exact, zero tolerance; `minvar` is the WHOLE function (checks + embedded arburg + psi loop +
+    # fft + division) against Model.Minvar.minvar, at QcC with tw1 / tw2 / tw4 and at binary64 against the model and the implementation
+    loopir_tie(ctx, ['minvar_psi', 'arburg', 'minvar'])
 
     # ------------------------------------------------------------------ exact correspondence at Gaussian rationals
     cases = []; meta = []
